@@ -52,6 +52,9 @@ CHECKS = {
  "C11": (MC, "5/C11",
   "Misuse classes (index outside the shape incl. negative, string too long for the space fixed at creation, array update of another length, same-length update with larger dynamic items, union non-member by object and by name, buffer of another context, offset without buffer) executed on symbolically placed objects with live neighbours: an exception must be raised, the write log must be unchanged at that point for every placement, object and neighbours keep their values.",
   W_NOTE, W_TECH),
+ "C18": (MC, "section 15/C18",
+  "Histories (set a leaf through the dressed attribute / through the underlying struct, assign a scalar-array field, assign a dressed object to a nested field from the same or another buffer, assign to a reference field from the same / another buffer, copy into the same / another / a new buffer, move, move a nested part) executed with the real HybridClass machinery (descriptors, rename tables, _reinit_from_xobject, copy, move) on hybrid classes of a bounded catalogue placed on symbolic buffers. After every step, for every placement on the path: the dressed attributes, the underlying struct view and a plain-Python model agree (incl. renamed fields); every nested dressed part lives in its container's buffer at the offset of the field it dresses (z3 equality of offset terms); a nested assignment stores a copy inside the container, disjoint from the assigned object (z3), allocating nothing, independent both ways; a reference assignment shares (same offset, no allocation, same Python object) and is refused across buffers leaving the object unchanged; copy is equal, of the same class, disjoint/in the requested buffer, independent both ways; move ends in the target buffer with equal value and all nested parts relocated, and is refused for nested parts and reference-bearing objects.",
+  W_NOTE + " C18: 7 hybrid class definitions quick / 10 thorough (scalars with and without declared defaults, strings, scalar arrays of 1-3 axes, nested hybrid classes up to 3 levels, references to hybrid classes, renamed fields), 8 / 11 histories of <= 5 steps, nested parts given as dicts or as dressed objects; placements: roomy free chunk, capacity 0 with growth at every allocation, arbitrary (tight) free chunk with solver forks per allocation. The typed NumPy views of the symbolic buffer are write-back arrays (stub S11: an element assignment through a view is stored to the write-log), validated by the concrete pass.", W_TECH),
  "C20": (MC, "5/C20 (section 15)",
   "PARTIAL. Pickle round trip of a group of objects sharing one symbolically placed buffer (the object, a second object of the same type, an Int64 array), for every catalogue struct/array type: the object protocol pickle drives (__reduce_ex__(4), the classes' own __getstate__/__setstate__ or instance __dict__, one memo) is executed in Python over the real classes with solver terms as offsets/capacity/free list; afterwards, for every placement: same value at every field, same offset and size, restored objects share one buffer distinct from the original's, writes through the copy stay inside the copy (frame, z3) and do not reach the original, an allocation in the restored buffer is disjoint (z3) from every restored object (the restored free list is a working allocator state), the restored object can be the source of a copy. The serialiser itself (the C pickle module, NumPy's array pickling, ContextCpu state) runs only in the concrete validation pass and in replays, which use the real pickle.dumps/loads.",
   W_NOTE + " C20: stub S10 (copy.deepcopy = pickle's object protocol with by-value leaves; inconclusive if an xobjects class defined __deepcopy__/__copy__); hybrid classes: see the C20 section of DESIGN.md; GPU contexts outside the claim.", W_TECH),
@@ -70,7 +73,6 @@ CHECKS = {
 }
 NA = {
  "C17": "kernel-call glue around cffi/ctypes pointers and NumPy scalar constructors: values cross into C objects a symbolic executor cannot follow and there is no arithmetic to encode beyond ctypes.data+_offset; needs compiled kernels and byte-level observation (execution, not solving). DESIGN.md section 6.",
- "C18": "descriptor protocol, __dict__ copying, object identity and ownership flags of hybrid classes: no integer state for a solver to quantify over; the storage-level facts it relies on are decided under C08/C09. DESIGN.md section 6.",
  "C19": "recursive conversion between Python containers, default elision by np.any(default != value): NumPy comparisons and container traversal, nothing symbolic within reach of the solver-based technique. DESIGN.md section 6.",
 }
 PENDING = "check for this property is not built yet at this commit (planned, see DESIGN.md section 5); not claimed until it runs"
